@@ -360,6 +360,30 @@ def rule_pck_probe(ctx) -> None:
                "; ".join(probs) or "the failure handler leaves the loop", "the smallest size that accepts the value wins", A.loc(IM, lp))
 
 
+def rule_roundtrip(ctx) -> None:
+    """C05.cmd-roundtrip: every SB3.1 command class interpreted on model objects (E19): parse(export(x)) has the fields of x and exports
+    to the same bytes."""
+    from ..engines import roundtrip
+    D = bytes(range(1, 21))
+    table = [
+        ("CmdErase", [{"address": 0x1000, "length": 0x200, "memory_id": 3}, {"address": 0, "length": 1, "memory_id": 0}]),
+        ("CmdLoad", [{"address": 0x1000, "data": D, "memory_id": 3}, {"address": 0x20, "data": bytes(range(16)), "memory_id": 0}]),
+        ("CmdExecute", [{"address": 0x1000}]),
+        ("CmdCall", [{"address": 0x1000}]),
+        ("CmdProgFuses", [{"address": 0x10, "data": bytes(range(8))}]),
+        ("CmdProgIfr", [{"address": 0x10, "data": D}]),
+        ("CmdCopy", [{"address": 0x10, "length": 0x20, "destination_address": 0x30, "memory_id_from": 1, "memory_id_to": 2}]),
+        ("CmdLoadKeyBlob", [{"offset": 0x10, "data": D, "key_wrap_id": 17, "plain_input": False}]),
+        ("CmdConfigureMemory", [{"address": 0x10, "memory_id": 9}]),
+        ("CmdFillMemory", [{"address": 0x10, "length": 0x20, "pattern": 0xA5A5A5A5}]),
+        ("CmdSectionHeader", [{"length": 0x40, "section_uid": 2, "section_type": 1}]),
+        ("CmdLoadCmac", [{"address": 0x1000, "data": D, "memory_id": 3}]),
+        ("CmdLoadHashLocking", [{"address": 0x1000, "data": D, "memory_id": 3}]),
+        ("CmdReset", [{}]),
+    ]
+    roundtrip.check_classes(ctx, "C05.cmd-roundtrip", CMD, table, floor=14)
+
+
 def run(ctx) -> None:
     ctx.chk.explain("C05: PackSym on the SB3.1 header and the command layouts; walk of the export call tree proving no accumulating state without reset (idempotent export); "
                     "shape of the hash chain (record layout, link update, processing order, container order and sequencing); length formulas evaluated for both hash sizes; "
@@ -371,6 +395,7 @@ def run(ctx) -> None:
     ctx.rule(rule_partition)
     ctx.rule(rule_registry)
     ctx.rule(rule_pck_probe)
+    ctx.rule(rule_roundtrip)
     ctx.rule(c09.rule_kdf, "C05")
     ctx.chk.assumptions = ["hash/CMAC/AES values are those of the cryptography package (C09)", "not decided: signature validity, certificate block contents (C03), per-command payload semantics"]
 
